@@ -49,7 +49,7 @@ Proof. exact flush_rows_only_for_tracked. Qed.
 
 (* non-vacuity: the C03 example trace is well formed and ends with entity 1 live = its newest row *)
 Definition C01_cfg : cfg :=
-  mkcfg true false false false false [mkcls true true 0 [mkcol true false; mkcol false false] []].
+  mkcfg true false false false false [mkcls true true 0 [mkcol true false true; mkcol false false true] []].
 Definition c1_ins k v := mkev 0 0 [Some k; Some v] [true;true] [] [0%nat;1%nat] false true [false;false].
 Definition c1_upd k v := mkev 0 1 [Some k; Some v] [false;true] [] [1%nat] false false [false;false].
 Definition c1_dirty := [mkobj 0 [false;true] [] false false].
